@@ -45,6 +45,7 @@ Definition spec_step (w0 : wallet ideal_C) (st : spec_st) (o : wop) : spec_st * 
     | Some cs' => ((lk, cs'), None)
     | None => (st, Some "other"%string)
     end
+  | OReload => (st, None)
   end.
 Definition spec_obs_ok (w0 : wallet ideal_C) (st : spec_st) (e : error) (o : obs_t) : bool :=
   let '(oe, oenc, oseed, olast, opass, oxprv, ochains, leak) := o in
